@@ -81,6 +81,8 @@ def gen_case(seed: int, tier: str, index: int) -> Dict[str, Any]:
     elif sub == "life":
         T = rng.choice([0.15, 0.3, 0.5, 1.0, 2.0, 4.0])
         N = rng.choice([0, 1, 2, 3, 5, 10])
+        if random.Random(mix(seed, "c20.first-send")).random() < 0.25:
+            cfg["first_send_fails"] = True
         answer = None
         if rng.random() < 0.7:
             if rng.random() < 0.5:
@@ -435,6 +437,16 @@ def sub_life(world: WorldT) -> None:
             gone_at["t"] = world.now()
     world.sched.monitors.append(watch)
     sock.add_receive_handler(h)
+    if cfg.get("first_send_fails"):
+        # the very first sendto() of the request fails (a transient OSError: the datagram never leaves); it counts as a transmission that
+        # got lost, and the retransmissions follow as ever
+        world.net.cfg["blocking_send_error_p"] = 1.0
+
+        def first_gone() -> None:
+            if world.net.cfg.get("blocking_send_error_p") and any(r.data == b"REQUEST-1" and r.fate == "send_error" for r in world.net.history[-4:]):
+                world.net.cfg["blocking_send_error_p"] = 0.0
+        world.sched.monitors.append(first_gone)
+        res.probe("first_send_of_a_request_fails")
     sock.queue_send(h, peer.addr)
     answer_rec = None
     backlog = cfg.get("backlog")
@@ -650,7 +662,7 @@ ASSUMPTIONS = [
     "registration changes are made between datagrams, so 'the first registered handler that accepts it' is unambiguous",
     "the ping thread may die of the 45 s connection timeout in long loss patterns; the statement is about the handshake",
 ]
-PROBES = ["caller_told_too_long_while_the_handshake_goes_on", "handler_raised_in_can_handle", "backlog_longer_than_timeout", "registered_while_engine_tidies_up", "handshake_with_unknown_version", "unreliable_simulator_handshake_completed", "incoming_traffic_while_sending", "multi_caller", "preempted_inside_udp_socket", "handler_removed_while_running", "no_handler_accepts", "handler_raised_in_handle",
+PROBES = ["caller_told_too_long_while_the_handshake_goes_on", "first_send_of_a_request_fails", "handler_raised_in_can_handle", "backlog_longer_than_timeout", "registered_while_engine_tidies_up", "handshake_with_unknown_version", "unreliable_simulator_handshake_completed", "incoming_traffic_while_sending", "multi_caller", "preempted_inside_udp_socket", "handler_removed_while_running", "no_handler_accepts", "handler_raised_in_handle",
           "handler_raised_in_handled", "unanswered", "answered", "answer_after_removal", "handshake_with_losses", "segment_lost_during_handshake"]
 N_QUICK = 4800
 
